@@ -363,6 +363,21 @@ class LoadJudge(Judge):
 
             def names_in(annotation):
                 return {n.id for n in ast.walk(ast.parse(annotation, mode='eval')) if isinstance(n, ast.Name)}
+            # every name used in ANY annotation of the stub (attributes, parameters, return types) is imported or defined
+            builtin_ok = {'bb', 'bv', 'int', 'float', 'bool', 'bytes', 'None', 'str', 'object'}
+            for node in ast.walk(tree):
+                anns = []
+                if isinstance(node, ast.AnnAssign):
+                    anns.append(node.annotation)
+                elif isinstance(node, (ast.FunctionDef, ast.AsyncFunctionDef)):
+                    anns += [a.annotation for a in node.args.args + node.args.kwonlyargs if a.annotation is not None]
+                    if node.returns is not None:
+                        anns.append(node.returns)
+                for an in anns:
+                    missing = {x.id for x in ast.walk(an) if isinstance(x, ast.Name)} - bound - builtin_ok
+                    if missing:
+                        bad('stub %s uses unbound name(s) %s in the annotation %s' % (ns, sorted(missing), ast.unparse(an)[:80])
+                            )
             for s in _seq(surf['structs']):
                 node = classes.get(s['n'])
                 if node is None:
